@@ -55,6 +55,9 @@ def recipes(ctx: Ctx):
     for nd in ([70, 130] if not ctx.thorough else [70, 130, 200, 300, 90, 150, 65, 100]):
         out.append((f"m{i}", {"ops": K.many_devices_history(ctx.rng, nd)}))
         i += 1
+    for _ in range(40 if ctx.thorough else 12):
+        out.append((f"f{i}", {"ops": K.f03a_history(ctx.rng)}))
+        i += 1
     n_random = 18000 if ctx.thorough else 1200
     for _ in range(n_random):
         n = ctx.rng.randrange(2, 60 if ctx.thorough else 30)
